@@ -316,7 +316,7 @@ static void part_blocks_msgs(bool big)
                 DataStream s{enc};
                 CNetAddr na;
                 s >> CNetAddr::V2(na);
-                uint64_t sv = services[(k + r * 2) % 6];
+                uint64_t sv = services[k % 6]; // k = 3j + r runs through all six values (the earlier (k + 2r) % 6 only ever hit 0 and 252)
                 uint32_t tm = times[(k + r) % 4];
                 uint16_t port = ports[(k + r) % 3];
                 CAddress ca{CService{na, port}, (ServiceFlags)sv, NodeSeconds{std::chrono::seconds{tm}}};
@@ -332,8 +332,9 @@ static void part_blocks_msgs(bool big)
                 Bytes b2 = ser(CAddress::V2_NETWORK(v)), b1 = ser(CAddress::V1_NETWORK(v));
                 std::vector<CAddress> back;
                 DataStream s{b2};
-                s >> CAddress::V2_NETWORK(back);
-                bool same = back.size() == v.size() && s.empty();
+                bool thrown = false;
+                try { s >> CAddress::V2_NETWORK(back); } catch (const std::exception&) { thrown = true; } // own output must decode
+                bool same = !thrown && back.size() == v.size() && s.empty();
                 for (size_t i = 0; same && i < v.size(); i++) same = back[i] == v[i] && back[i].nServices == v[i].nServices && back[i].nTime == v[i].nTime;
                 out("MSG\taddrv2\t" + (d.empty() ? "-" : d) + "\t" + vx::hex(b2) + "\t" + (same ? "1" : "0"));
                 out("MSG\taddr\t" + (d.empty() ? "-" : d) + "\t" + vx::hex(b1) + "\t1");
